@@ -74,6 +74,7 @@ int pem_read(FILE *fp, const char *name, uint8_t *data, size_t *datalen, size_t 
 	char end_line[80];
 	int len;
 	BASE64_CTX ctx;
+	uint8_t buf[128];
 
 	snprintf(begin_line, sizeof(begin_line), "-----BEGIN %s-----", name);
 	snprintf(end_line, sizeof(end_line), "-----END %s-----", name);
@@ -116,12 +117,26 @@ int pem_read(FILE *fp, const char *name, uint8_t *data, size_t *datalen, size_t 
 			break;
 		}
 
-		base64_decode_update(&ctx, (uint8_t *)line, (int)strlen(line), data, &len);
+		// a line of at most 79 characters and at most 63 pending ones decode to <= 105 bytes
+		if (base64_decode_update(&ctx, (uint8_t *)line, (int)strlen(line), buf, &len) < 0) {
+			error_print();
+			return -1;
+		}
+		if (len < 0 || (size_t)len > maxlen - *datalen) {
+			error_print();
+			return -1;
+		}
+		memcpy(data, buf, len);
 		data += len;
 		*datalen += len;
 	}
 
-	base64_decode_finish(&ctx, data, &len);
+	if (base64_decode_finish(&ctx, buf, &len) != 1
+		|| len < 0 || (size_t)len > maxlen - *datalen) {
+		error_print();
+		return -1;
+	}
+	memcpy(data, buf, len);
 	*datalen += len;
 	return 1;
 }
